@@ -11,6 +11,7 @@ CONSTANTS
   AttrSets = {1, 2, 3, 4, 5}
   UniverseId = 1
   MaxPx = 2
+  BothOrders = FALSE
   Scales = {64, 65536}
   NodeProfiles = {0, 1, 2}
 SPECIFICATION Spec
